@@ -96,11 +96,10 @@ def run(chk, repo):
                f"ArrayMap object no device variable is laid out and every "
                f"access raises KeyError" if not ok else
                "the same ArrayMap() call expression")
-    col = repo.func("ebpfcat.arraymap.ArrayMap.collect")
-    ok = bool(find("isinstance(v, ArrayGlobalVarDesc) and v.map is self and "
-                   "(k not in unique)", col))
-    chk.ob("R29.1", "ebpfcat.arraymap.ArrayMap.collect", "descriptors are "
-           "selected by map identity", ok, col, "v.map is self")
+    # that collect() selects the descriptors of *this* map (by identity) is
+    # decided on computed layouts: c08.layout_semantic, "variables of other
+    # maps and plain attributes are left alone" / "every visible variable
+    # of this map has a slot" (run as part of c08.layout below)
     ok = any(isinstance(b, ClassInfo) and b.qualname ==
              "ebpfcat.arraymap.ArrayGlobalVarDesc" for b in repo.bases(dv))
     chk.ob("R29.1", dv.qualname, "DeviceVar is an array-map variable", ok,
